@@ -449,13 +449,18 @@ func Verif_C10_Faults() {
 }
 
 //verif:entry tier=quick,thorough steps=4000000 preempt=1 cover=ctxerr,completed,stalled
-//verif:doc MapReduce / MapReduceVoid whose context is cancelled at an arbitrary scheduling point (a minimal context.Context implementation: Done channel + Err), 1 item x 1 worker (thorough: 1..2 items x 1..2 workers), optionally with a mapper that ignores the context and stalls until after the call has returned; all schedules with at most 1 preemption: the call returns a context error or the complete result, never ErrReduceNoOutput/nil for a reduction that was cut short; it returns although the mapper stalls; no goroutine is left once the stalled mapper is released.
+//verif:doc MapReduce / MapReduceVoid whose context is cancelled at an arbitrary scheduling point (a minimal context.Context implementation: Done channel + Err), 1 item x 1 worker (thorough also 1 x 2 and 2 x 1), optionally (1 x 1) with a mapper that ignores the context and stalls until after the call has returned; all schedules with at most 1 preemption: the call returns a context error or the complete result, never ErrReduceNoOutput/nil for a reduction that was cut short; it returns although the mapper stalls; no goroutine is left once the stalled mapper is released.
 func Verif_C10_Context() {
 	n, workers := 1, 1
 	if rt.Tier() > 0 {
-		n, workers = 1+rt.Choose("items", 2), 1+rt.Choose("workers", 2)
+		cfg := [][2]int{{1, 1}, {1, 2}, {2, 1}}[rt.Choose("config", 3)]
+		n, workers = cfg[0], cfg[1]
 	}
-	c10Faults(n, workers, c10CtxCancel, rt.Choose("stall", 2) == 1)
+	stall := false
+	if n == 1 && workers == 1 {
+		stall = rt.Choose("stall", 2) == 1
+	}
+	c10Faults(n, workers, c10CtxCancel, stall)
 }
 
 //verif:entry tier=thorough steps=4000000 preempt=1 cover=repanic,cancelerr,cancelnil
